@@ -78,6 +78,57 @@ fn main() {
             println!("{}", json!({"engine": name, "input": mon::bytes_json(&bytes), "fails": out}));
             std::process::exit(if fails.is_empty() { 0 } else { 1 });
         }
+        Some("gen-probe-input") => {
+            // script for /verif/cfgprobe (C20): P / H / M lines, deterministic in (tier, seed)
+            use std::io::Write;
+            let quick = arg_after(&args, "--tier").as_deref() != Some("thorough");
+            let seed: u64 = arg_after(&args, "--seed").and_then(|s| s.parse().ok()).unwrap_or(1);
+            let out = std::io::stdout();
+            let mut out = std::io::BufWriter::new(out.lock());
+            gen::enum_seq(gen::WIDE, 3, 0, 1, &mut |b| {
+                writeln!(out, "P {}", mon::hex(b)).unwrap();
+            });
+            gen::enum_seq(gen::NARROW, if quick { 4 } else { 5 }, 0, 1, &mut |b| {
+                writeln!(out, "P {}", mon::hex(b)).unwrap();
+            });
+            let mut r = rng::Rng::new(rng::mix(&[seed, 0xC20]));
+            let n = if quick { 60_000 } else { 600_000 };
+            for i in 0..n {
+                let sl = gen::gen_sloc(&mut r, true, true);
+                let b = gen::render_random(&sl.tokens(), &mut r);
+                let b = if i % 2 == 0 { b } else { gen::mutate(&b, &mut r) };
+                writeln!(out, "P {}", mon::hex(&b)).unwrap();
+            }
+            for s in gen::corpus() {
+                writeln!(out, "P {}", mon::hex(s.as_bytes())).unwrap();
+            }
+            for _ in 0..(if quick { 10_000 } else { 100_000 }) {
+                let start = *r.pick(model::START_VALUES);
+                let len = 5 + r.below(36);
+                let ops: Vec<String> = (0..len).map(|_| model::random_op(&mut r).to_probe()).collect();
+                writeln!(out, "H {} {}", mon::hex(start.as_bytes()), ops.join(" ")).unwrap();
+            }
+            for _ in 0..(if quick { 20_000 } else { 200_000 }) {
+                let sa = gen::gen_sloc(&mut r, true, true);
+                let mut sb = if r.chance(1, 4) { gen::gen_sloc(&mut r, true, true) } else { sa.clone() };
+                match r.below(5) {
+                    0 => sb.id.script = None,
+                    1 => sb.id.region = None,
+                    2 => sb.id.variants.clear(),
+                    3 => sb.id.lang = "und".into(),
+                    _ => {}
+                }
+                writeln!(out, "M {} {}", mon::hex(&gen::render_random(&sa.tokens(), &mut r)), mon::hex(&gen::render_random(&sb.tokens(), &mut r))).unwrap();
+            }
+        }
+        Some("gen-macro-cases") => {
+            // literals for the macro lab (C16): one JSON object per line
+            let quick = arg_after(&args, "--tier").as_deref() != Some("thorough");
+            let seed: u64 = arg_after(&args, "--seed").and_then(|s| s.parse().ok()).unwrap_or(1);
+            for c in engines::macrocases::cases(quick, seed) {
+                println!("{}", c);
+            }
+        }
         Some("replay-json") => {
             let name = args.get(2).expect("engine name");
             let e = engines.iter().find(|e| e.name == *name).unwrap_or_else(|| {
